@@ -91,7 +91,7 @@ def simplecfg(name, kind, extra=None):
 ENGINES.update({
     "clocks": {
         "harness_engine": "clocks",
-        "serves": ["C10", "C02", "C16", "C18"],
+        "serves": ["C10", "C02", "C16", "C18", "C11"],
         "doc": "MC_Clocks.tla: every pair of clocks of a bounded universe as one TLC state; declarative laws checked on the spec, every case printed as a test vector evaluated on the real VClock/Dot",
         "configs": {"quick": [{"cfg": "clocks_q.cfg", "module": "MC_Clocks.tla", "vectors": True,
                                "invariants": ["OrderOK", "LatticeOK", "ForgetOK", "DotOK"]}],
